@@ -49,6 +49,8 @@ var translationUnits = []tunit{
 	}, vars: []tfunc{{"internal/server/authz.go", "allow"}, {"internal/server/authz.go", "deny"}}},
 	{module: "CodeInternal", funcs: []tfunc{
 		{"internal/boolstr.go", "BoolStrValue"},
+		{"internal/config.go", "isRootPath"},
+		{"internal/config.go", "isCookieNameToken"},
 	}},
 	{module: "CodeOidc", imports: []string{"AuthModel.Generated.CodeHttp"}, funcs: []tfunc{
 		{"internal/authz/oidc.go", "getCookieName"},
@@ -106,6 +108,7 @@ var libTable = map[string]libfn{
 	"strings.EqualFold": {"Go.equalFold", false, "bool"},
 	"len":               {"Go.len", false, "int"},
 	"strconv.ParseBool": {"Go.parseBool", false, ""},
+	"strings.IndexByte": {"Go.indexByte", false, "int"},
 }
 
 // results of zero-argument methods and fields that are strings (to tell + on strings from + on ints)
@@ -152,6 +155,7 @@ type tctx struct {
 	fd       *ast.FuncDecl
 	used     map[string]int // identifier uses outside dropped statements
 	tmp      int
+	byteCtx  bool
 	resTypes []string // Lean result types, for typed nil in return statements
 }
 
@@ -306,6 +310,10 @@ func (c *tctx) goType(e ast.Expr) string {
 				return typeStr(fd.Type.Results.List[0].Type)
 			}
 		}
+	case *ast.IndexExpr:
+		if c.goType(x.X) == "string" {
+			return "byte"
+		}
 	case *ast.CompositeLit:
 		if x.Type != nil {
 			return typeStr(x.Type)
@@ -363,7 +371,20 @@ func (c *tctx) expr(e ast.Expr) string {
 			}
 			return strLit(s)
 		case token.INT:
+			if c.byteCtx {
+				v, err := strconv.ParseInt(x.Value, 0, 64)
+				if err != nil || v < 0 || v > 255 {
+					fail(e, "byte literal out of range")
+				}
+				return fmt.Sprintf("(%d : UInt8)", v)
+			}
 			return "(" + x.Value + " : Int)"
+		case token.CHAR:
+			r, _, _, err := strconv.UnquoteChar(strings.Trim(x.Value, "'"), 39)
+			if err != nil || r > 255 {
+				fail(e, "character literal outside one byte")
+			}
+			return fmt.Sprintf("(%d : UInt8)", r)
 		}
 		fail(e, "literal kind outside the translated subset")
 	case *ast.Ident:
@@ -410,7 +431,13 @@ func (c *tctx) expr(e ast.Expr) string {
 				return "(!(" + c.expr(x.X) + ").isNil)"
 			}
 		}
+		// a comparison one side of which is a byte: integer literals on the other side are bytes
+		saved := c.byteCtx
+		if c.goType(x.X) == "byte" || c.goType(x.Y) == "byte" {
+			c.byteCtx = true
+		}
 		l, r := c.expr(x.X), c.expr(x.Y)
+		c.byteCtx = saved
 		switch x.Op {
 		case token.LAND, token.LOR:
 			if strings.Contains(r, "(← ") {
@@ -460,6 +487,8 @@ func (c *tctx) expr(e ast.Expr) string {
 			return "(Go.Map.get " + c.expr(x.X) + " " + c.expr(x.Index) + ")"
 		case strings.HasPrefix(t, "[]"):
 			return "(← Go.idx " + c.expr(x.X) + " " + c.expr(x.Index) + ")"
+		case t == "string":
+			return "(← Go.strIdx " + c.expr(x.X) + " " + c.expr(x.Index) + ")"
 		}
 		fail(e, "cannot tell whether the indexed value is a map or a slice")
 	case *ast.CompositeLit:
@@ -796,6 +825,8 @@ func (c *tctx) stmt(o *out, ind int, s ast.Stmt) {
 		c.typeSwitch(o, ind, x)
 	case *ast.RangeStmt:
 		c.rangeStmt(o, ind, x)
+	case *ast.ForStmt:
+		c.forStmt(o, ind, x)
 	case *ast.ReturnStmt:
 		o.line(ind, "return "+c.retExpr(x.Results, x))
 	case *ast.BranchStmt:
@@ -1108,6 +1139,23 @@ func (c *tctx) typeSwitch(o *out, ind int, x *ast.TypeSwitchStmt) {
 	if !hasDefault {
 		o.line(ind, "| _ => pure ()")
 	}
+}
+
+// forStmt: only the counting loop `for i := 0; i < len(x); i++ { … }` whose body does not assign i
+func (c *tctx) forStmt(o *out, ind int, x *ast.ForStmt) {
+	init, ok1 := x.Init.(*ast.AssignStmt)
+	cond, ok2 := x.Cond.(*ast.BinaryExpr)
+	post, ok3 := x.Post.(*ast.IncDecStmt)
+	if !ok1 || !ok2 || !ok3 || init.Tok != token.DEFINE || len(init.Lhs) != 1 || typeStr(init.Rhs[0]) != "0" || cond.Op != token.LSS || post.Tok != token.INC {
+		fail(x, "for statement outside the translated subset (only `for i := 0; i < n; i++`)")
+	}
+	i := init.Lhs[0].(*ast.Ident).Name
+	if typeStr(cond.X) != i || typeStr(post.X) != i || c.assigned[i] {
+		fail(x, "counting loop whose counter is assigned in the body")
+	}
+	c.types[i] = "int"
+	o.line(ind, "for "+lname(i)+" in Go.range "+c.expr(cond.Y)+" do")
+	c.block(o, ind+1, x.Body.List)
 }
 
 func (c *tctx) rangeStmt(o *out, ind int, x *ast.RangeStmt) {
